@@ -61,6 +61,14 @@ def tasks(tier, seed):
         T.append(('periodic', 1, None, None, steps))
         if len(steps) > 2:
             T.append(('periodic', 2, None, None, steps))
+    # offsets handed over in narrower / other array types (the powers of the offsets must not be formed in the caller's type: 3**6 does not fit int8, 4**8 not int16, 10**10 not int32)
+    for dt_, st_ in (('int8', [-3, -2, -1, 0, 1, 2, 3]), ('int16', [-4, -3, -2, -1, 0, 1, 2, 3, 4]), ('int16', [-9, -6, -3, 0, 3, 6, 9]), ('int32', list(range(11))), ('int8', [-1, 0, 1]), ('float64', [-2, -1, 0, 1, 2]),
+                     ('float32', [-3, -2, -1, 0, 1, 2, 3]), ('uint8', [0, 1, 2, 3, 4, 5, 6])):
+        for d in (1, 2, 3):
+            if d < len(st_):
+                T.append(('stencil', d, None, None, {'dtype': dt_, 'steps': st_}))
+    T.append(('periodic', 2, None, None, {'dtype': 'int8', 'steps': [-3, -2, -1, 0, 1, 2, 3]}))
+    T.append(('periodic', 1, None, None, {'dtype': 'int16', 'steps': [-4, -3, -2, -1, 0, 1, 2, 3, 4]}))
     for d, order in ([(1, 2), (2, 2), (2, 4), (1, 4), (3, 2)] if quick else [(1, 2), (2, 2), (2, 4), (1, 4), (3, 2), (4, 2), (2, 6), (1, 6), (3, 4)]):
         for bc in ('dirichlet', 'neumann', ('dirichlet', 'neumann'), ('neumann', 'dirichlet')):
             for reduce in (False, True):
@@ -122,13 +130,28 @@ def box(vs):
     return [z3.And(v >= -1, v <= 1) for v in vs]
 
 
+def _arr(steps):
+    """offsets of a task as the array handed to the real code: a list (default integer type) or {'dtype': name, 'steps': list}"""
+    if steps is None:
+        return None
+    if isinstance(steps, dict):
+        return np.array(steps['steps'], dtype=steps['dtype'])
+    return np.array(steps)
+
+
+def _sname(steps):
+    if isinstance(steps, dict):
+        return 'steps' + ','.join(map(str, steps['steps'])) + '/' + steps['dtype']
+    return 'steps' + ','.join(map(str, steps))
+
+
 def stencil_case(rep, d, order, st, steps):
-    name = f'stencil/d{d}/' + (f'o{order}/{st}' if steps is None else 'steps' + ','.join(map(str, steps)))
+    name = f'stencil/d{d}/' + (f'o{order}/{st}' if steps is None else _sname(steps))
     try:
         if steps is None:
             w, s = get_finite_difference_stencil(derivative=d, order=order, stencil_type=st)
         else:
-            w, s = get_finite_difference_stencil(derivative=d, steps=np.array(steps))
+            w, s = get_finite_difference_stencil(derivative=d, steps=_arr(steps))
     except np.linalg.LinAlgError:
         return
     except Exception as e:
@@ -172,7 +195,7 @@ def stencil_case(rep, d, order, st, steps):
 
 
 def real_matrix(d, order, st, steps, size, dim, bc, bc_params=None, dx=0.25):
-    A, b = get_finite_difference_matrix(derivative=d, order=order, stencil_type=st, steps=(np.array(steps) if steps is not None else None), dx=dx, size=size, dim=dim, bc=bc,
+    A, b = get_finite_difference_matrix(derivative=d, order=order, stencil_type=st, steps=_arr(steps), dx=dx, size=size, dim=dim, bc=bc,
                                         bc_params=bc_params)
     return np.asarray(A.todense(), dtype=float), np.asarray(b, dtype=float)
 
@@ -238,13 +261,13 @@ def bcdefaults_case(rep):
 
 
 def periodic_case(rep, d, order, st, steps):
-    name = f'periodic/d{d}/' + (f'o{order}/{st}' if steps is None else 'steps' + ','.join(map(str, steps)))
+    name = f'periodic/d{d}/' + (f'o{order}/{st}' if steps is None else _sname(steps))
     if steps is None:
         w, s = get_finite_difference_stencil(derivative=d, order=order, stencil_type=st)
     else:
-        if d >= len(steps):
+        if d >= len(_arr(steps)):
             return
-        w, s = get_finite_difference_stencil(derivative=d, steps=np.array(steps))
+        w, s = get_finite_difference_stencil(derivative=d, steps=_arr(steps))
     width = int(max(s) - min(s)) + 1
     dx = 0.25
     for size in (width, width + 1, width + 3):
@@ -412,7 +435,7 @@ def replay(path):
     d = json.load(open(path))['replay']
     t = d['task']
     if t[0] == 'periodic':
-        w, s = get_finite_difference_stencil(derivative=t[1], order=t[2], stencil_type=t[3], steps=(np.array(t[4]) if t[4] is not None else None))
+        w, s = get_finite_difference_stencil(derivative=t[1], order=t[2], stencil_type=t[3], steps=_arr(t[4]))
         A, b = real_matrix(t[1], t[2], t[3], t[4], d['size'], 1, 'periodic')
         uv = np.array(d['u'])
         got = A @ uv
@@ -436,7 +459,7 @@ def replay(path):
         bad = not (np.array_equal(A1.toarray(), A2.toarray()) and np.array_equal(b1, b2))
     elif t[0] == 'stencil':
         try:
-            w, s = get_finite_difference_stencil(derivative=t[1], order=t[2], stencil_type=t[3], steps=(np.array(t[4]) if t[4] is not None else None))
+            w, s = get_finite_difference_stencil(derivative=t[1], order=t[2], stencil_type=t[3], steps=_arr(t[4]))
         except Exception as e:
             print('raises', type(e).__name__, e)
             bad = t[4] is None
